@@ -287,12 +287,12 @@ pub fn check(thorough: bool, _seed: u64) -> Check {
         phases: vec![exact_phase(thorough), rich_phase(thorough), log_phase(thorough)],
         extra: Default::default(),
         controls: vec![("oracle rejects a value that is off by more than the bound", Box::new(|| {
-            let c = [1.0, -1.0, 0.1];
-            let x = 2.5;
+            let c: [f64; 3] = [1.0, -1.0, 0.1];
+            let x: f64 = 2.5;
             let s = dy(1.0).add(&dy(-1.0).mul(&dy(x))).add(&dy(0.1).mul(&dy(x).powi(2)));
             let m = dy(1.0).add(&dy(x)).add(&dy(0.1).mul(&dy(x).powi(2)));
             let b = m.mul_i(16).mul_pow2(-53);
-            let good = Poly2(c).evaluate(x);
+            let good = c[2].mul_add(x * x, c[1].mul_add(x, c[0])); // computed by the harness, not by the subject
             if !dy(good).sub(&s).abs().le(&b) { return Err("good value rejected".into()); }
             if dy(good * (1.0 + 1e-13)).sub(&s).abs().le(&b) { return Err("bad value accepted".into()); }
             Ok(())
